@@ -282,7 +282,7 @@ def judge(obs: dict, prog: tuple) -> tuple[list[tuple], int]:
     for e in obs["events"]:
         if e[0] == "harness":
             out.append((f"harness:{e[1]}", "-", {}))
-        if e[0] == "raised" and "RetryError" not in (e[3] or ""):
+        if e[0] == "raised" and "RetryError" not in (e[3] or "") and "sub-task: fails for good" not in (e[3] or ""):
             out.append(("operation-raises", "-", {"event": e}))
     for i in ids:
         if obs["status"].get(i) != "SUCCESS":
@@ -321,7 +321,7 @@ def judge(obs: dict, prog: tuple) -> tuple[list[tuple], int]:
     # --- sub-tasks: launches per (workflow, call), what was handed back
     launched_by = {l["inv"]: l for l in obs["launches"] if l["task"] == "wf_sub"}
     for i in ids:
-        for arg in (0, 1):
+        for arg in (0, 1, 2):
             op = f"exec{arg}"
             reached = [v for r in by_wf[i] for k, v in r["values"] if k == op]
             if not reached:
@@ -644,6 +644,8 @@ def run(ctx: Ctx) -> None:
     only = getattr(ctx, "only", None)
     maxlen = 4 if ctx.thorough else 3
     progs = programs(maxlen)
+    # execute_task(sub, 2): a sub-task that FAILS before its workflow's body is executed again
+    progs += [("exec2",), ("exec2", "random"), ("random", "exec2"), ("exec2", "exec0"), ("uuid", "exec2", "exec2")]
     items = [(backend, image, prog) for prog in progs for backend, image in MODES]
     if only:
         items = [it for it in items if only in f"{it[0]}/{it[1]}/{'-'.join(it[2])}"]
@@ -658,7 +660,7 @@ def run(ctx: Ctx) -> None:
         e1.explore_all(ctx, MOD, ds, lambda d: d["bound"])
     _fold(ctx)
     ctx.rule = (f"{len(progs)} programs (all sequences of 1..{maxlen} operations over random|utc_now|uuid|execute_task(sub,0)|"
-                "execute_task(sub,1)) x {memory/same image, SQLite/same image, SQLite/fresh image per poll, SQLite/two runner "
+                "execute_task(sub,1), plus 5 programs with execute_task(sub,2), a sub-task that ends FAILED before the body is executed again) x {memory/same image, SQLite/same image, SQLite/fresh image per poll, SQLite/two runner "
                 "images taking turns} x histories {retry x3, kill@j and recover@j for every death position j=0..n, two-sequential, "
                 "two-alternating (A1 B1 A2 B2 A3 B3), two-seq-retry}, all through task() -> get_invocations_to_run -> "
                 "invocation.run; schedules: two worker threads (and two simulated processes on SQLite) running the same task for "
